@@ -11,6 +11,12 @@ CLAIMED = {
         "technique": "TLA+ spec (NewlineIter/LineIndex/Ranges vs Lines) model-checked by TLC; TLC-generated behaviours replayed into Rust; recorded iterator traces validated by TLC",
     },
 }
+CLAIMED["C13"] = {
+    "text": "TLC checks the LinearLocator machine (Locator.tla, mirror of LinearLocatorState/locate_inner) against the declarative rows/columns of Lines.tla for all texts <= 4/5 characters over {ASCII, multi-byte, LF, CR, leading BOM} and all forward sequences of <= 3 locate/locate_only calls; the behaviours are replayed on the real LinearLocator and RandomLocator; real programs are folded with both locators and the hook-recorded locate calls plus every RandomLocator answer are validated by TLC (LocatorTrace.tla: forward-only precondition, cursor agreement, declarative row/column).",
+    "design_ref": "DESIGN.md section 6 C13",
+    "note": "Offsets splitting a CR LF pair are excluded (never node/error offsets); trace validation covers the curated program list in corpus/ (constructs whose tree order differs from source order) and grows with the program generator; debug assertions on.",
+    "technique": "TLA+ spec of the locator state machine model-checked by TLC against a declarative line/column definition; replay of TLC behaviours; TLC trace validation of hook-recorded locate events",
+}
 NOT_YET = {}
 
 def main():
